@@ -460,6 +460,10 @@ func (p *gRepeat0) Match(src []*types.Token, ctx *Context) (n int, result any, e
 				return
 			}
 		}
+		if n1 == 0 { // an empty match can only repeat itself: stop instead of looping forever
+			result = rets
+			return
+		}
 		rets = append(rets, ret1)
 		n += n1
 		src = src[n1:]
@@ -503,6 +507,10 @@ func (p *gRepeat1) Match(src []*types.Token, ctx *Context) (n int, result any, e
 				result = rets
 				return
 			}
+		}
+		if n1 == 0 { // an empty match can only repeat itself: stop instead of looping forever
+			result = rets
+			return
 		}
 		rets = append(rets, ret1)
 		n += n1
